@@ -923,6 +923,18 @@ def find_replace(
         template_replacement = textwrap.dedent(template_replacement)
         template_replacement = textwrap.indent(template_replacement, " " * indentation)
 
+        # A statement that stands indented keeps its place: its first line goes where the old one
+        # started, the following lines are indented like it
+        line_start = source.rfind("\n", 0, range_start) + 1
+        statement_indentation = source[line_start:range_start]
+        if statement_indentation and not statement_indentation.strip():
+            first_line, *other_lines = template_replacement.strip("\n").split("\n")
+            if other_lines:
+                template_replacement = "\n".join(
+                    [first_line]
+                    + [statement_indentation + line if line.strip() else line for line in other_lines]
+                )
+
         item = [replacement_range, template_replacement]
         if transaction is not None:
             item.append(transaction)
